@@ -140,7 +140,7 @@ func (g *Gen) snippet() string {
 	}
 	cat := []sn{
 		{"interp", func() string {
-			return Pick(r, []string{`<h1>{{ title }}</h1>`, `<p>Hello {{ name }}, n={{ n }} num={{ num }}</p>`, `<p>{{ user.name }} &lt;{{ user.email }}&gt;</p>`, `<p>{{missing}}|{{ nilv }}|{{ html }}</p>`, `<p>a &amp; b {{ title }} "q" 'q'</p>`})
+			return Pick(r, []string{`<h1>{{ title }}</h1>`, `<p>Hello {{ name }}, n={{ n }} num={{ num }}</p>`, `<p>[{{ assigned }}] {{ name }}</p>`, `<p>a {{}} b {{ }} c {{ title }}</p>`, `<p>{{ user.name }} &lt;{{ user.email }}&gt;</p>`, `<p>{{missing}}|{{ nilv }}|{{ html }}</p>`, `<p>a &amp; b {{ title }} "q" 'q'</p>`})
 		}},
 		{"fresh", func() string {
 			return Pick(r, []string{`<p>{{ user.profile.city }} {{ user.profile.zip }}</p>`, `<p>{{ items[0].label }} {{ items[1].tags[0] }}</p>`, `<p>{{ m.k2 }} {{ m['k1'] }} {{ user["name"] }}</p>`, fmt.Sprintf(`<p>{{ user.profile.p%d }}{{ items[%d].id }}</p>`, r.Intn(50), r.Intn(4))})
@@ -319,7 +319,13 @@ func (g *Gen) wrap(parts []string, mark string) string {
 // failing snippets: each makes the render return an error.
 func (g *Gen) failing() (string, string) {
 	r := g.R
-	switch r.Intn(11) {
+	switch r.Intn(12) {
+	case 11: // a LESS import cycle: the compilation must fail, and must leave nothing behind for later compilations
+		g.Eng.Less = true
+		if !g.has("side/loop.less") {
+			g.put("side/loop.less", "@import \"side/loop.less\";\n.l { color: blue; }\n")
+		}
+		return `<style type="text/css+less">@import "side/loop.less"; .q { color: red; }</style>`, "less-import-cycle"
 	case 10: // a LESS source the compiler chokes on (it panics inside; the render must report an error and leave nothing locked)
 		g.Eng.Less = true
 		return "<style type=\"text/css+less\">\n.w {\n  w: hsvsaturation(rgb();\n}\n</style>", "less-compiler-panic"
